@@ -31,7 +31,7 @@ struct Acc {
     walks: u64,
     probes: Vec<u64>,
     by_strategy: Vec<u64>,
-    by_flavour: [u64; 3],
+    by_flavour: [u64; 4],
     states: HashSet<u64>,
     states_capped: bool,
     shapes: HashSet<(usize, u32)>,
@@ -51,7 +51,7 @@ impl Acc {
             walks: 0,
             probes: vec![0; PROBES.len()],
             by_strategy: vec![0; STRATEGIES.len()],
-            by_flavour: [0; 3],
+            by_flavour: [0; 4],
             states: HashSet::new(),
             states_capped: false,
             shapes: HashSet::new(),
@@ -69,8 +69,8 @@ fn one_run(master: u64, idx: u64, collect_states: bool) -> (Record, ExecOut, usi
     let strat_i = rng.usize_below(STRATEGIES.len());
     let cfg = gen_cfg(&mut rng);
     let priorities = gen_priorities(&mut rng, STRATEGIES[strat_i], cfg.ops + 8);
-    let (out, ops) = exec_source(&priorities, &mut |model, step| next_op(&mut rng, &cfg, model, step), collect_states);
-    (Record { priorities, ops }, out, strat_i, cfg.flavour)
+    let (out, ops) = exec_source(&priorities, cfg.max_len, &mut |model, step| next_op(&mut rng, &cfg, model, step), collect_states);
+    (Record { priorities, ops, max_len: cfg.max_len }, out, strat_i, cfg.flavour)
 }
 
 fn ctl(master: u64, runs: u64, replay_dir: &str) -> Json {
@@ -141,7 +141,7 @@ fn ctl(master: u64, runs: u64, replay_dir: &str) -> Json {
         for (x, y) in m.by_strategy.iter_mut().zip(a.by_strategy.iter()) {
             *x += *y;
         }
-        for i in 0..3 {
+        for i in 0..4 {
             m.by_flavour[i] += a.by_flavour[i];
         }
         m.states_capped |= a.states_capped;
@@ -214,7 +214,7 @@ fn ctl(master: u64, runs: u64, replay_dir: &str) -> Json {
         .with("steps", Json::n(m.steps as i128))
         .with("invariant_walks", Json::n(m.walks as i128))
         .with("runs_by_priority_strategy", Json::Obj(STRATEGIES.iter().zip(m.by_strategy.iter()).map(|(s, c)| (s.name().to_string(), Json::n(*c as i128))).collect()))
-        .with("runs_by_flavour", Json::obj().with("general", Json::n(m.by_flavour[0] as i128)).with("sorted", Json::n(m.by_flavour[1] as i128)).with("lazy_heavy", Json::n(m.by_flavour[2] as i128)))
+        .with("runs_by_flavour", Json::obj().with("general", Json::n(m.by_flavour[0] as i128)).with("sorted", Json::n(m.by_flavour[1] as i128)).with("lazy_heavy", Json::n(m.by_flavour[2] as i128)).with("deep", Json::n(m.by_flavour[3] as i128)))
         .with("probes", probes)
         .with("probes_at_zero", Json::Arr(zeros))
         .with("distinct_states", Json::u(m.states.len()))
